@@ -80,10 +80,10 @@ CHECKS = {
         assumptions=["role trees are built by overlay hook H2 (yaml.Unmarshal into aggregatorRole + LinkChildrenToParents), as workflow.Load does before template processing",
                      "MIXED/PARTIAL/UNDEFINED are never injected at a leaf (the task manager never sends them)",
                      "goroutine interleavings of concurrent updates are sampled, not enumerated"],
-        quick=[R("^(TestAlgebraExhaustive|TestFoldFixed|TestCanary.*)$", 1, 1, 120), R("^TestFold$", 1200, 6, 300), R("^TestConcurrentSavedCase$", 1, 4, 300),
+        quick=[R("^(TestAlgebraExhaustive|TestFoldFixed|TestCanary.*)$", 1, 1, 120), R("^TestFold$", 1200, 6, 300), R("^TestConcurrentSavedCase$", 1, 4, 300), R("^TestConcurrentDeployment$", 1, 4, 300),
                R("^TestFoldLoadedFixed$", 1, 1, 120), R("^TestFoldLoaded$", 1500, 2, 300),
                R("^TestHooksCollectedFixed$", 1, 1, 120), R("^TestHooksCollected$", 1500, 2, 300)],
-        thorough=[R("^(TestAlgebraExhaustive|TestFoldFixed|TestCanary.*)$", 1, 1, 120), R("^TestFold$", 12000, 12, 2400), R("^TestFold$", 1500, 2, 2400, race=True), R("^TestConcurrentSavedCase$", 1, 8, 2400),
+        thorough=[R("^(TestAlgebraExhaustive|TestFoldFixed|TestCanary.*)$", 1, 1, 120), R("^TestFold$", 12000, 12, 2400), R("^TestFold$", 1500, 2, 2400, race=True), R("^TestConcurrentSavedCase$", 1, 8, 2400), R("^TestConcurrentDeployment$", 1, 8, 2400),
                   R("^TestFoldLoadedFixed$", 1, 1, 120), R("^TestFoldLoaded$", 40000, 4, 2400),
                   R("^TestHooksCollectedFixed$", 1, 1, 120), R("^TestHooksCollected$", 30000, 4, 2400)],
         floors={"concurrent": ("TestFold", 0.15), "mixed-criticality": ("TestFold", 0.4)},
